@@ -79,9 +79,9 @@ def isFloatCases : List (String × String) := [("float32", "float64(i), true"), 
 def blockStringOpeners : List String := ["\"", "'", "`"]
 /-- html/manager.go: the field (*tplManager).GetTemplate indexes by name -/
 def getTemplateLooksIn : String := "templates"
-/-- process-wide or manager-wide shared containers (sync.Pool / sync.Map variables and fields, package-level maps) -/
-def sharedContainers : List String := []
+/-- process-wide or manager-wide mutable state: package-level variables that are containers, buffers, locks, atomics or pointers to composite values, and struct fields of type sync.Pool / sync.Map -/
+def sharedContainers : List String := ["render.go: var htmlContentType slice"]
 /-- Combine(child, parent) call sites: (function, head of the child argument, parent argument) -/
-def combineSites : List (String × String × String) := [("Execute", "scope", "exp.NewScope(data)"), ("processTagStart", "exp.NewScope", "data"), ("processRange", "exp.NewScope", "scope"), ("WithDefaultScope", "s", "defaultScope")]
+def combineSites : List (String × String × String) := [("Execute", "scope", "t.manager.globalScope"), ("processTagStart", "exp.NewScope", "data"), ("processRange", "exp.NewScope", "scope"), ("WithDefaultScope", "s", "defaultScope")]
 
 end Facts
